@@ -1187,7 +1187,24 @@ pub fn c15(ctx: &Ctx, st: &mut Stats) {
     let n = ctx.draws(120_000, 2_500_000);
     for _ in 0..n {
         // choose A
+        let mut lookbehind_b = false;
         let (a, a_src) = match r.below(40) {
+            38 => {
+                // a closed statement followed by hundreds to thousands of comment / white-space
+                // tokens: every look-behind has to walk (or give up walking) over them
+                let n = r.pick(&[100usize, 520, 600, 1100, 3000]);
+                let c = r.pick(&["* c;\n", "%* c;\n", "*c;", "%*c; "]);
+                lookbehind_b = true;
+                st.count("long_trivia_prefixes", 1);
+                (format!("data a; x = 1;\n{}", c.repeat(n)), "arbitrary")
+            }
+            37 => {
+                // a closed prefix that has already raised hundreds to thousands of diagnostics
+                let n = r.pick(&[300usize, 600, 1100, 5000]);
+                let u = r.pick(&["%let ;", "x = 'zz'x;\n", "y = 1e;", "%put %eval(1 +);\n"]);
+                st.count("many_error_prefixes", 1);
+                (u.repeat(n), "arbitrary")
+            }
             39 => {
                 let levels = r.pick(&[8usize, 31, 32, 33, 40, 41, 64, 65, 130]);
                 let p = grammar::gen_deep_program(&mut r, ctx.tier.gcfg(), levels);
@@ -1236,7 +1253,8 @@ pub fn c15(ctx: &Ctx, st: &mut Stats) {
         st.count(&format!("closed_prefixes_{a_src}"), 1);
         let Some(ra) = ex_a.result() else { continue };
         // choose B
-        let b = match r.below(10) {
+        let b = match if lookbehind_b { 10 } else { r.below(10) } {
+            10 => r.pick(&["datalines;\n1 2\n;", "cards4;\na;b\n;;;;", "%let x=1;", "%lbl: x;", "%macro m; %mend;", "* c;", "lines;\n;", "%put a;"]).to_string(),
             0 | 1 => (r.pick(&[
                 "datalines;\n1 2\n;", "cards4;\na;b\n;;;;", "* c;", "*c", "= 1", " = 1;", "%let x=1;", "%lbl: x;", "%m", "%m(a)", "x", ";",
                 "%end;", "%mend;", "%else x;", "%then y;", ")", "\"", "'", "/*", "%to 3;", "%by 1;", "&a", "1", "\n", " ", "lines;", "%do;",
